@@ -1,4 +1,6 @@
 mod core;
+mod eng_map;
+mod eng_mvreg;
 mod eng_orswot;
 mod tree;
 
@@ -9,26 +11,58 @@ use std::io::{BufRead, BufReader, Write};
 fn replay<E: Engine>(dump: &str, out: &str, known: &Known, opts: ReplayOpts) {
     let f = std::fs::File::open(dump).expect("dump file");
     let rd = BufReader::with_capacity(1 << 20, f);
-    let mut rp: Replayer<E> = Replayer::new(known, opts);
-    let mut bad_lines = 0u64;
-    for line in rd.lines() {
-        let line = line.expect("read");
-        if !line.starts_with("<<\"E\"") {
-            continue;
+    let lines: Vec<String> = rd.lines().map(|l| l.expect("read")).filter(|l| l.starts_with("<<\"E\"")).collect();
+    let nthreads: usize = std::env::var("HARNESS_THREADS").ok().and_then(|v| v.parse().ok()).unwrap_or(8).max(1);
+    let chunk = (lines.len() + nthreads - 1) / nthreads.max(1);
+    let mut parts: Vec<(Report, std::collections::HashMap<String, ConvEntry>, u64)> = vec![];
+    std::thread::scope(|sc| {
+        let mut hs = vec![];
+        for part in lines.chunks(chunk.max(1)) {
+            let o = opts.clone();
+            hs.push(sc.spawn(move || {
+                let mut rp: Replayer<E> = Replayer::new(known, o);
+                let mut bad = 0u64;
+                for line in part {
+                    match parse_dump_line(line) {
+                        Some(v) => rp.line(&v),
+                        None => bad += 1,
+                    }
+                }
+                (rp.rep, rp.conv, bad)
+            }));
         }
-        match parse_dump_line(&line) {
-            Some(v) => rp.line(&v),
-            None => bad_lines += 1,
+        for h in hs {
+            parts.push(h.join().expect("replay thread"));
+        }
+    });
+    // merge the per-thread reports; equal-knowledge classes are compared across threads too
+    let mut total = Report::default();
+    let mut conv: std::collections::HashMap<String, ConvEntry> = std::collections::HashMap::new();
+    let mut bad_lines = 0;
+    for (rep, cv, bad) in parts {
+        total.absorb(rep);
+        bad_lines += bad;
+        for (k, e) in cv {
+            match conv.get(&k) {
+                Some(e0) => conv_compare::<E>(&mut total, known, e0, &e),
+                None => {
+                    conv.insert(k, e);
+                }
+            }
         }
     }
     if bad_lines > 0 {
-        rp.rep.errors.push(format!("{} unparsable dump lines", bad_lines));
+        total.errors.push(format!("{} unparsable dump lines", bad_lines));
     }
-    let mut o = rp.rep.to_json();
+    let mut o = total.to_json();
     o["engine"] = json!(E::NAME);
-    o["conv_classes"] = json!(rp.conv.len());
+    o["conv_classes"] = json!(conv.len());
     let mut w = std::fs::File::create(out).expect("out file");
     w.write_all(serde_json::to_string_pretty(&o).unwrap().as_bytes()).unwrap();
+}
+
+fn flagval(flags: &[&str], name: &str) -> usize {
+    flags.iter().position(|f| *f == name).and_then(|i| flags.get(i + 1)).and_then(|v| v.parse().ok()).unwrap_or(0)
 }
 
 fn main() {
@@ -52,9 +86,16 @@ fn main() {
                 laws: flags.contains(&"--laws"),
                 persist: flags.contains(&"--persist"),
                 max_samples: 5,
+                m: flagval(&flags, "--m"),
+                k: flagval(&flags, "--k"),
             };
             match engine.as_str() {
                 "orswot" => replay::<eng_orswot::OrswotEng>(dump, out, &known, opts),
+                "mvreg" => replay::<eng_mvreg::MVRegEng>(dump, out, &known, opts),
+                "map_mv" => replay::<eng_map::MapEng<crdts::MVReg<u8, u8>>>(dump, out, &known, opts),
+                "map_or" => replay::<eng_map::MapEng<crdts::Orswot<u8, u8>>>(dump, out, &known, opts),
+                "map_map_mv" => replay::<eng_map::MapEng<crdts::Map<u8, crdts::MVReg<u8, u8>, u8>>>(dump, out, &known, opts),
+                "map_map_or" => replay::<eng_map::MapEng<crdts::Map<u8, crdts::Orswot<u8, u8>, u8>>>(dump, out, &known, opts),
                 e => {
                     eprintln!("unknown engine {}", e);
                     std::process::exit(2);
